@@ -105,6 +105,20 @@ pub async fn upgrade(
     let account_id = *caller.account_id();
     let connection_id = query.connection_id;
 
+    // Device verification passes for an account that does not
+    // exist (so that accounts can be created); change notifications
+    // are only for devices of an existing account
+    {
+        let reader = backend.read().await;
+        if !reader
+            .account_exists(&account_id)
+            .await
+            .map_err(|_| StatusCode::INTERNAL_SERVER_ERROR)?
+        {
+            return Err(StatusCode::NOT_FOUND);
+        }
+    }
+
     let (close_tx, _) = watch::channel(Message::Close(None));
     let (send_tx, _) = broadcast::channel(64);
     let conn = WebSocketConnection { send_tx, close_tx };
